@@ -39,3 +39,12 @@ func VerifNewAddrManager(walletId, addr string, scriptHash []byte) *AddrManager 
 
 // VerifAddManager registers an address manager with a keystore manager.
 func VerifAddManager(km *KeystoreManager, am *AddrManager) { km.managedKeystores[am.keystoreName] = am }
+
+// VerifSetCurrent selects the wallet in use ("" = none).
+func VerifSetCurrent(km *KeystoreManager, walletId string) {
+	if walletId == "" {
+		km.currentKeystore = nil
+		return
+	}
+	km.currentKeystore = &currentKeystore{accountName: walletId}
+}
